@@ -217,10 +217,33 @@ class CapturingCorrector:
             EC = _impl()["EC"].ExonCorrector
 
             class Cap(EC):
-                def process_events(self, alignment_info, event_map, read_region, read_introns, isoform_region, isoform_introns):
-                    return event_map
+                def process_events(self, alignment_info, event_map, read_region, read_introns, isoform_region, isoform_introns,
+                                   *micro):
+                    # repaired code: a 7th argument `retained_micro_introns` {read exon: [isoform intron index, ...]};
+                    # before the repair the micro-intron events sat in event_map under the key -exon-1 (one per key)
+                    return event_map, (micro[0] if micro else None)
             cls.cls = Cap
         return cls.cls
+
+
+def micro_signature():
+    """True iff the real process_events takes the retained micro introns as a container of their own (repaired code)"""
+    import inspect
+    return "retained_micro_introns" in inspect.signature(_impl()["EC"].ExonCorrector.process_events).parameters
+
+
+def canon_built_map(m, micro):
+    """what correct_misalignments built, in the model's terms: {"emap": [[key, event]], "micro": [[exon, [iso index, ...]]]}.
+    Old code (micro is None): the bindings of micro-intron events are the dict entries whose event starts with the
+    absent sentinel (key -exon-1, ONE event per key: the last one assigned)"""
+    if micro is None:
+        em = [[k, ev_json(e)] for k, e in m.items() if e.read_region[0] != _impl()["IA"].SupplementaryMatchConstants.absent_position]
+        mi = [[-k - 1, [e.isoform_region[0]]] for k, e in m.items()
+              if e.read_region[0] == _impl()["IA"].SupplementaryMatchConstants.absent_position]
+    else:
+        em = [[k, ev_json(e)] for k, e in m.items()]
+        mi = [[k, list(v)] for k, v in micro.items()]
+    return {"emap": sorted(em, key=lambda x: x[0]), "micro": sorted(mi, key=lambda x: x[0])}
 
 
 def run_build_event_map(case):
@@ -234,13 +257,16 @@ def run_build_event_map(case):
     kw = {"micro": bool(case["flags"]["microintron_retention"]), "events": events}
 
     def f():
-        m = corr.correct_misalignments(ai, ra)
-        return sorted([[k, ev_json(e)] for k, e in m.items()], key=lambda x: x[0])
+        m, micro = corr.correct_misalignments(ai, ra)
+        return canon_built_map(m, micro)
     return kw, guarded(f)
 
 
-def run_process_events(case, emap):
-    """process_events with an explicit event map [(key, event)] (keys need not equal read_region[0])"""
+def run_process_events(case, emap, micro=()):
+    """process_events with an explicit event map [(key, event)] (keys need not equal read_region[0]) and explicit
+    retained micro introns [(read exon, isoform intron index)] in event order.  On the code before the repair (no
+    `retained_micro_introns` parameter) the micro bindings are put where that code kept them: event_map[-exon-1] = the
+    event, the last binding of an exon winning"""
     M = _impl()
     gi = make_gene_info(case["family"], case["delta"])
     params = make_params(case["flags"], case["delta"])
@@ -253,17 +279,45 @@ def run_process_events(case, emap):
     d = {}
     for k, e in emap:
         d[k] = make_events([e])[0]
+    micro = [[int(k), int(j)] for k, j in micro]
+    mm = {}
+    for k, j in micro:
+        mm.setdefault(k, []).append(j)
+    new_sig = micro_signature()
+    kw_emap = [[k, ev_json(e)] for k, e in d.items()]
+    if not new_sig:
+        for k, j in micro:
+            d[-k - 1] = make_events([{"t": "fake_micro_intron_retention", "iso": [j, j], "read": [G.ABSENT, k]}])[0]
     d = CountingDict(d, 2 * (2 * max(0, len(case["exons"]) - 1) + len(d) + 2) + 8)
     kw = {"flags": case["flags"], "delta": case["delta"], "err": case["err"],
-          "known": vlib.canon(gi.intron_profiles.features), "emap": [[k, ev_json(e)] for k, e in d.items()],
+          "known": vlib.canon(gi.intron_profiles.features), "emap": kw_emap, "micro": micro,
           "read_region": read_region, "read_introns": read_introns,
           "iso_region": list(gi.transcript_region(iso_id)), "iso_introns": vlib.canon(gi.all_isoforms_introns[iso_id])}
 
     def f():
+        extra = (mm,) if new_sig else ()
         reg, ni = corr.process_events(ai, d, tuple(read_region), [tuple(x) for x in read_introns],
-                                      gi.transcript_region(iso_id), gi.all_isoforms_introns[iso_id])
+                                      gi.transcript_region(iso_id), gi.all_isoforms_introns[iso_id], *extra)
         return {"region": list(reg), "introns": vlib.canon(ni)}
     return kw, guarded(f)
+
+
+def split_stream(rng, events, n_read):
+    """explicit inputs of process_events from a generated event list: micro-intron retentions become bindings
+    (read exon, isoform intron index) - any exon 0..n_read, several per exon, now and then a key outside the read or a
+    bad isoform index (malformed stream) -, every other event an event-map entry (mostly keyed by read_region[0])"""
+    emap, micro = [], []
+    for e in events:
+        r = rng.random()
+        if e["t"] == "fake_micro_intron_retention" and e["read"][0] == G.ABSENT:
+            micro.append([e["read"][1] if r < 0.9 else rng.randint(-2, n_read + 2), e["iso"][0]])
+        elif e["read"][0] in (G.ABSENT, G.UNDEF):
+            emap.append((-e["read"][1] - 1, e))
+        elif r < 0.85:
+            emap.append((e["read"][0], e))
+        else:
+            emap.append((rng.randint(-n_read - 1, n_read), e))
+    return emap, micro
 
 
 def run_match_genomic(known, reads, delta):
@@ -449,17 +503,8 @@ def correspondence(ctx):
         if len(case["exons"]) < 1:
             continue
         n_read = len(G.introns_of([tuple(e) for e in case["exons"]]))
-        emap = []
-        for e in case["events"]:
-            r = rng.random()
-            if e["read"][0] in (G.ABSENT, G.UNDEF):
-                key = -e["read"][1] - 1
-            elif r < 0.85:
-                key = e["read"][0]
-            else:
-                key = rng.randint(-n_read - 1, n_read)
-            emap.append((key, e))
-        kw, io = run_process_events(case, emap)
+        emap, micro = split_stream(rng, case["events"], n_read)
+        kw, io = run_process_events(case, emap, micro)
         cases.append(("process_events", kw, io))
         ctx.count("gen:malformed_stream")
 
@@ -538,8 +583,8 @@ def correspondence(ctx):
             nt = (not vlib.is_err(mo)) and (mo["introns"] != kw["read_introns"] or mo["region"] != kw["read_region"])
         else:
             nt = not vlib.is_err(mo) and bool(mo)
-        if op == "build_event_map" and isinstance(mo, list):
-            mo = sorted(mo, key=lambda x: x[0])
+        if op == "build_event_map" and isinstance(mo, dict) and "emap" in mo:
+            mo = {"emap": sorted(mo["emap"], key=lambda x: x[0]), "micro": sorted(mo["micro"], key=lambda x: x[0])}
         _record(ctx, op, kw, mo, io, nt)
 
 
@@ -1027,7 +1072,11 @@ def input_alignment(bam_exons, t, reported, polya_found):
     """reading rule: the input alignment of a read is its BAM block list after IsoQuant's polyA/polyT-exon trimming
     step (C16).  Decided independently of the corrector: the exon list that read_assignments.tsv reports is accepted as
     the input only if it is the BAM block list itself, the BAM block list without the terminal exons that the
-    generator made of pure A / T, or (read reported PolyA=True) a contiguous sub-list of the BAM blocks."""
+    generator made of pure A / T, or (read reported PolyA=True) a contiguous sub-list of the BAM blocks.
+    `polya_found == "unknown"`: the row does not print its additional_info (`noninformative` rows print `*`), so the
+    PolyA flag cannot be read; the trimming is then decided from the exons column alone: a contiguous sub-list is
+    accepted when it drops blocks only on a side where the generator aligned a polyT head / polyA tail exon, and at
+    least those (audit 2-C C14 GAP 2: seed 555 r00041, an A-rich 8-bp exon trimmed together with the tail exon)."""
     cands = [bam_exons]
     h, tl = t.get("polyt_head_exons", 0), t.get("polya_tail_exons", 0)
     if h and len(bam_exons) > h:
@@ -1037,8 +1086,14 @@ def input_alignment(bam_exons, t, reported, polya_found):
     if reported is None or reported in cands:
         return reported if reported is not None else bam_exons
     n = len(reported)
-    if polya_found and n >= 1 and any(reported == bam_exons[i:i + n] for i in range(len(bam_exons) - n + 1)):
+    if polya_found is True and n >= 1 and any(reported == bam_exons[i:i + n] for i in range(len(bam_exons) - n + 1)):
         return reported
+    if polya_found == "unknown" and n >= 1 and (h or tl):
+        for i in range(len(bam_exons) - n + 1):
+            cut_head, cut_tail = i, len(bam_exons) - n - i
+            if reported == bam_exons[i:i + n] and (cut_head >= h if h else cut_head == 0) and \
+                    (cut_tail >= tl if tl else cut_tail == 0):
+                return reported
     return bam_exons
 
 
@@ -1095,6 +1150,8 @@ def check_pipeline_run(P, d, paths, ds, truth, delta, strategy, flags_by_strateg
             iso_of.setdefault(row["read_id"], []).append(row["isoform_id"])
         if isinstance(row, dict) and "PolyA=True" in row.get("additional_info", ""):
             polya[row["read_id"]] = True
+        elif isinstance(row, dict) and row.get("additional_info", "").strip() == "*":
+            polya.setdefault(row["read_id"], "unknown")
         if isinstance(row, dict) and row.get("exons"):
             try:
                 reported.setdefault(row["read_id"], [tuple(int(x) for x in e.split("-")) for e in row["exons"].split(",")])
@@ -1324,9 +1381,13 @@ def oracle(ctx, disagreements, broken):
     else:
         plan = [(base * 10 + k, d, ("pacbio_ccs" if k % 3 == 0 else "nanopore"), STRATEGIES)
                 for k, d in enumerate([6, 6, 6, 4, 4, 12, 12, 0, 2, 6, 8, 6, 6, 4, 6, 12, 1, 6, 3, 6, 6, 4, 6, 6, 0, 0, 2, 2], 1)]
+    # regression of a corrected false alarm (audit 2-C C14 GAP 2): data set 555, read r00041 is reported `noninformative`
+    # (additional_info `*`) with an A-rich 8-bp exon trimmed together with its polyA tail exon
+    plan.append((555, 6, "nanopore", ["none"], {}))
     pstats = {"runs": 0, "records": 0, "changed": 0, "trimmed": 0}
-    for ds_seed, delta, dtype, strategies in plan:
-        kw = {} if quick else {"n_genes": 7, "reads_per_iso": 14}
+    for entry in plan:
+        ds_seed, delta, dtype, strategies = entry[:4]
+        kw = entry[4] if len(entry) > 4 else ({} if quick else {"n_genes": 7, "reads_per_iso": 14})
         ds, truth = G.noisy_dataset(ds_seed, delta=delta, **kw)
         d = P.scratch("isoverif_c14_")
         try:
